@@ -1099,6 +1099,10 @@ func main() {
 		freeMain(os.Args[2:])
 		return
 	}
+	if len(os.Args) > 1 && os.Args[1] == "misuse" {
+		misuseMain(os.Args[2:])
+		return
+	}
 	if len(os.Args) < 2 || os.Args[1] != "hist" {
 		vx.Die("usage: hx-c10 hist --n N --len L --full K --seed S --out cases.v --stats stats.json [--replay file.json]")
 	}
